@@ -26,17 +26,43 @@ class BER:
                 f"BER encoding requires bytes or bytearray, got {data!r} of {type(data)}"
             )
 
-        length = len(data).to_bytes(1, "big")
+        length = BER.encode_length(len(data))
         if length == 0:
             return b""
 
         return b"".join([_tag_bytes, length, data])
 
     @staticmethod
+    def encode_length(length: int) -> bytes:
+        """
+        Definite form: one byte below 128, otherwise 0x80 + the number of length bytes
+        followed by the length, big endian.
+        """
+        if length < 0x80:
+            return length.to_bytes(1, "big")
+        length_bytes = length.to_bytes((length.bit_length() + 7) // 8, "big")
+        return (0x80 + len(length_bytes)).to_bytes(1, "big") + length_bytes
+
+    @staticmethod
+    def pop_length(data: bytearray) -> int:
+        """
+        Removes a definite form length from the beginning of data and returns it.
+        """
+        first_byte = data.pop(0)
+        if first_byte < 0x80:
+            return first_byte
+        number_of_length_bytes = first_byte & 0x7F
+        if number_of_length_bytes == 0 or number_of_length_bytes > len(data):
+            raise ValueError("BER-decoding failed. Not a definite form length")
+        length = int.from_bytes(data[:number_of_length_bytes], "big")
+        del data[:number_of_length_bytes]
+        return length
+
+    @staticmethod
     def decode(_bytes: bytes, tag_length: int = 1) -> Tuple[bytes, int, bytes]:
         input = bytearray(_bytes)
         tag = b"".join([input.pop(0).to_bytes(1, "big") for _ in range(tag_length)])
-        length = input.pop(0)
+        length = BER.pop_length(input)
         data = input
         if len(data) != length:
             raise ValueError(
